@@ -658,7 +658,7 @@ func TestVerifC19(t *testing.T) {
 		ops(x, m, r)
 	}
 
-	n := run.N(2000, 160000)
+	n := run.N(10000, 160000)
 	run.Cases(n, func(c *vlib.Case) {
 		spec := c19RandomSpec(c.R, c.Idx, run.Thorough())
 		runCase(c, spec, func(x *c19Ctx, m *c19Mach, r *vlib.Rand) {
